@@ -300,7 +300,9 @@ def decode_inputs(schema, vals):
                 out[name] = _int(vals[i], signed=ty.startswith("i"))
                 i += 1
     except IndexError:
-        out["_undecoded"] = vals
+        for name, _ in schema:
+            out.setdefault(name, None)     # not on the failing trace: any value
+        out["_note"] = "variables shown as null are not assigned on the failing trace (any value)"
     if i < len(vals):
         out["_extra"] = vals[i:]
     return out
@@ -434,8 +436,8 @@ def _cbmc_trace_values(h, check_id, d):
         if a == "--verbosity":
             skip = True
             continue
-        if a in ("--json-ui", "--trace", "--compact-trace"):
-            continue
+        if a in ("--json-ui", "--trace", "--compact-trace", "--slice-formula"):
+            continue          # no formula slicing: every kani::any() must appear in the trace, in order
         out_argv.append(a)
     out_argv += ["--property", check_id, "--trace", "--compact-trace"]
     rc, out, err, secs = run(out_argv, timeout=300, mem_gb=16, cwd=d)
@@ -530,10 +532,10 @@ def _classify(res, u, unit, parsed, rc, out, errtxt, mod_start):
     elif undec:
         res["status"] = "undecided"
         res["undecided_reason"] = "; ".join(undec)[:2000]
-    elif obligations > 0 and len(by_short) >= len(u["harnesses"]):
+    elif obligations > 0 and len(by_short) >= len(u["harnesses"]) and discharged == obligations:
         res["status"] = "pass"
     else:
-        res["undecided_reason"] = "no verdict (rc=%s)" % rc
+        res["undecided_reason"] = "no verdict (rc=%s, %d of %d checks accounted for)" % (rc, discharged, obligations)
 
 
 def counterexample(function_path):
